@@ -1,7 +1,7 @@
 (* C05 driver.  stdin: "case <id>", ops, "end".
    ops:  C <lbl> <np> <prog> <args> | Y r | V r | M r | D r | S r1 r2 | U r1 r2 | T dt | X | Z
          prog = levels separated by '/', a level = steps and a final statement separated by ',':
-                w<d> p<d> P<w<n>|p>(:<d><W<e>|U|D>)* (park with a helper program) t (start the next level here)  then  e<val> r<j> L x o k<d> q<d> h S K<n> N
+                w<d> p<d> P<w<n>|p>(:<d><W<e>|U|D>)* (park with a helper program) t (start the next level here)  then  e<val> r<j> g<k> L x o k<d> q<d> h S K<n> N
          args = value tokens separated by ',' or '-';  value token: n i<k> f<k> s<k> z l<k> v<k> a<k> c<k>
    prints per op  m <call> | <records> | n=<running> th=<threads> vm=<VMs>[ hang][ UB]   (model) then  s ...  (specification) *)
 let kinds = "ifszlvac"
@@ -41,6 +41,7 @@ let parse_level (p : string) : level =
        | 'e' -> fin (FEnd (RLit (parse_val (String.sub w 1 (String.length w - 1)))))
        | 'r' -> fin (FEnd (RArg (nat_of_int (num w))))
        | 'L' -> fin (FEnd RLocal)
+       | 'g' -> fin (FEnd (RLevel (n_of_int (num w))))
        | 'x' -> fin FEndNone
        | 'o' -> fin FFall
        | 'k' -> fin (FKill (n_of_int (num w)))
@@ -60,7 +61,13 @@ let parse_op (l : string) : op option =
   match words l with
   | ["C"; lbl; np; prog; args] ->
     let a = if args = "-" then [] else List.map parse_val (split ',' args) in
-    Some (OCall (lbl = "1", nat_of_int (int_of_string np), parse_prog prog, a))
+    (* np: a number (parameters local.p1..), or @t.t.. with t = <j> (local.p<j>) | v<k> (a level/game/parm variable) *)
+    let (n, pt) =
+      if String.length np > 0 && np.[0] = '@' then
+        let ts = split '.' (String.sub np 1 (String.length np - 1)) in
+        (List.length ts, List.map (fun w -> if w.[0] = 'v' then PLev (n_of_int (num w)) else PLoc (nat_of_int (int_of_string w))) ts)
+      else (int_of_string np, []) in
+    Some (OCall (lbl = "1", nat_of_int n, pt, parse_prog prog, a))
   | ["Y"; r] -> Some (OCopy (nn r))
   | ["V"; r] -> Some (OReserve (nn r))
   | ["M"; r] -> Some (OMove (nn r))
